@@ -14,7 +14,10 @@ Inductive obs15 :=
 (* a declared default at a position of type t, and whether the implementation's
    reported defaultValue parsed back to it (parse_value + value_from_ast):
    wherever the guard of C15_exact_partial accepts, it must have *)
-| OGuard (t : iref) (v : pv) (parsed_back : bool).
+| OGuard (t : iref) (v : pv) (parsed_back : bool)
+(* an in-place edit of the Schema object happened here (history cases): the
+   following observations belong to the next segment's dump; nothing to compare *)
+| OEdit.
 
 Fixpoint lit_eqb (a b : lit) : bool :=
   match a, b with
@@ -41,7 +44,9 @@ Fixpoint lit_eqb (a b : lit) : bool :=
   | _, _ => false
   end.
 
-Definition case_C15 : Type := ischema pv * list obs15.
+(* a case is a history on ONE Schema object: segments (dump of the schema as
+   it is now, observations made in that state), separated by in-place edits *)
+Definition case_C15 : Type := list (ischema pv * list obs15).
 
 Definition opt_pv_eqb (m : option pv) (d : pv) : bool :=
   match m with Some v => pv_eqb v d | None => false end.
@@ -54,6 +59,7 @@ Definition model_obs (sc : ischema pv) (o : obs15) : option pv :=
   | OProbe dis mut root sels _ => probe_model big_fuel dis mut sc root sels
   | OParse _ _ => None
   | OGuard _ _ _ => None
+  | OEdit => None
   end.
 
 Definition obs_data (o : obs15) : pv :=
@@ -61,6 +67,7 @@ Definition obs_data (o : obs15) : pv :=
   | OIntro _ d => d | OIntroDisabled d => d | OType _ _ d => d | OProbe _ _ _ _ d => d
   | OParse _ _ => PNone
   | OGuard _ _ _ => PNone
+  | OEdit => PNone
   end.
 
 Definition agree_obs (sc : ischema pv) (o : obs15) : bool :=
@@ -72,10 +79,14 @@ Definition agree_obs (sc : ischema pv) (o : obs15) : bool :=
       | _, _ => false
       end
   | OGuard t v ok => implb (default_okb (s_types sc) t v) ok
+  | OEdit => true
   | _ => opt_pv_eqb (model_obs sc o) (obs_data o)
   end.
 
-Definition agree_C15 (c : case_C15) : bool := forallb (agree_obs (fst c)) (snd c).
+Definition agree_C15 (c : case_C15) : bool :=
+  forallb (fun seg => forallb (agree_obs (fst seg)) (snd seg)) c.
 
 (* indices of the disagreeing observations of one case (diagnostics) *)
-Definition bad_obs (c : case_C15) : list N := bad_indices (agree_obs (fst c)) (snd c).
+Definition bad_obs (c : case_C15) : list N :=
+  bad_indices (fun p => agree_obs (fst p) (snd p))
+              (flat_map (fun seg => map (pair (fst seg)) (snd seg)) c).
